@@ -35,6 +35,36 @@ def fields_read(fn, adt, params=(1, 2)):
     return got
 
 
+def _eq_by_variants(prog, eqf, adt_info, node_variants):
+    """([errors], pairs evaluated) or None when some pair that matters could not be evaluated"""
+    from .pe import PathEval, NotEval
+    names = [v["name"] for v in adt_info["variants"]]
+    errs, n = [], 0
+    for va in names:
+        for vb in names:
+            env = {1: ("enumv", va, 1), 2: ("enumv", vb, 2)}
+            try:
+                r = PathEval(prog, eqf, {}, [], env=env).run()
+            except NotEval:
+                if va == vb and va not in node_variants and adt_info["variants"][names.index(va)]["fields"]:
+                    continue       # a data-carrying non-node variant (a literal): compared field by field, not evaluated here
+                return None
+            except Exception:
+                return None
+            n += 1
+            if va != vb:
+                if r is not False:
+                    errs.append("%s == %s evaluates to %r, expected false" % (va, vb, r))
+            elif va in node_variants:
+                ok = isinstance(r, tuple) and r[0] == "ptreq" and {r[1][:3], r[2][:3]} == {("payload", 1, va), ("payload", 2, vb)}
+                if not ok:
+                    errs.append("two %s pointers are compared as %r, expected ptr::eq of their nodes" % (va, r))
+            elif not adt_info["variants"][names.index(va)]["fields"]:
+                if r is not True:
+                    errs.append("%s == %s evaluates to %r, expected true" % (va, vb, r))
+    return errs, n
+
+
 def run(prog):
     out = []
     for adt in NODE_TYPES:
@@ -117,10 +147,17 @@ def run(prog):
                          if v["fields"] and v["fields"][0]["ty"].startswith("&")]
         eqf = prog.find1(name="eq", self_adt=adt, impl_trait="std::cmp::PartialEq", unit="rsdd-lib")
         hf = prog.find1(name="hash", self_adt=adt, impl_trait="std::hash::Hash", unit="rsdd-lib")
+        # evaluate eq over every pair of variants (rules/pe.py): different variants are unequal, a node variant is
+        # compared by the address of the two payloads, a unit variant is equal to itself
+        sem = _eq_by_variants(prog, eqf, a, node_variants)
+        if sem is not None:
+            out.append(inst("HE", "%s:eq-identity" % adt, VIOLATION if sem[0] else OK, eqf, None,
+                            "; ".join(sem[0][:3]) if sem[0] else "eq evaluated over %d variant pairs: ptr::eq on %s, false across variants, "
+                            "true on equal unit variants" % (sem[1], sorted(node_variants))))
         errs = []
         te = eqf.terms
         ptr_eq_variants = set()
-        for cs in te.calls:
+        for cs in (te.calls if sem is None else []):
             k = cs.callee.key()
             if cs.callee.name == "eq" and k.startswith("std::ptr::eq"):
                 vs = []
@@ -137,12 +174,13 @@ def run(prog):
                                 % (cs.line, [show(a) for a in cs.args]))
             elif cs.callee.name in ("eq", "ne") and cs.callee.res and any(n in cs.callee.res for n in NODE_TYPES):
                 errs.append("line %d: structural comparison %s of node payloads inside pointer equality" % (cs.line, k))
-        if set(node_variants) - ptr_eq_variants:
-            errs.append("variant(s) %s are not compared by address" % sorted(set(node_variants) - ptr_eq_variants))
-        if not any(cs.callee.name == "discriminant" for cs in te.calls):
-            errs.append("discriminants are not compared for the remaining variants")
-        out.append(inst("HE", "%s:eq-identity" % adt, VIOLATION if errs else OK, eqf, None,
-                        "; ".join(errs) if errs else "eq: ptr::eq on %s, discriminant otherwise" % sorted(ptr_eq_variants)))
+        if sem is None:
+            if set(node_variants) - ptr_eq_variants:
+                errs.append("variant(s) %s are not compared by address" % sorted(set(node_variants) - ptr_eq_variants))
+            if not any(cs.callee.name == "discriminant" for cs in te.calls):
+                errs.append("?discriminants are not compared for the remaining variants")
+            out.append(inst("HE", "%s:eq-identity" % adt, VIOLATION if errs else OK, eqf, None,
+                            "; ".join(errs) if errs else "eq: ptr::eq on %s, discriminant otherwise" % sorted(ptr_eq_variants)))
         errs = []
         te = hf.terms
         names = [cs.callee.key() for cs in te.calls]
